@@ -191,6 +191,8 @@ class Ctx:
 
     # ---- models -> concrete inputs
     def concretize(self, model, maxcap=64):
+        """concrete inputs from a model.  Arrays: dense values for the first min(cap, maxcap) cells plus, for larger capacities,
+        the cells the model mentions explicitly (sparse) and the model's default value (`fill`)"""
         vals = {}
         for name, (v, ctype) in self.scalars.items():
             mv = model.eval(v, model_completion=True)
@@ -202,17 +204,35 @@ class Ctx:
             else:
                 vals[name] = mv.as_signed_long() if signed else mv.as_long()
         arrs = {}
+
+        def topy(a, mv):
+            if a.kind == 'f':
+                return fp_to_py(mv)
+            return mv.as_signed_long() if a.signed else mv.as_long()
         for name, a in self.arrays.items():
             cap = model.eval(a.cap, model_completion=True).as_signed_long()
             n = max(0, min(cap, maxcap))
-            xs = []
-            for i in range(n):
-                mv = model.eval(z3.Select(a.init, z3.BitVecVal(i, 64)), model_completion=True)
-                if a.kind == 'f':
-                    xs.append(fp_to_py(mv))
-                else:
-                    xs.append(mv.as_signed_long() if a.signed else mv.as_long())
-            arrs[name] = dict(ctype=a.ctype, cap=cap, values=xs, const=a.const)
+            xs = [topy(a, model.eval(z3.Select(a.init, z3.BitVecVal(i, 64)), model_completion=True)) for i in range(n)]
+            info = dict(ctype=a.ctype, cap=cap, values=xs, const=a.const)
+            if cap > maxcap:
+                sparse, fill = {}, 0
+                try:
+                    e = model.eval(a.init, model_completion=True)
+                    depth = 0
+                    while z3.is_store(e) and depth < 5000:
+                        i = e.arg(1)
+                        if z3.is_bv_value(i):
+                            k = i.as_signed_long()
+                            if k not in sparse and 0 <= k < cap:
+                                sparse[k] = topy(a, z3.simplify(e.arg(2)))
+                        e = e.arg(0); depth += 1
+                    if z3.is_const_array(e):
+                        fill = topy(a, z3.simplify(e.arg(0)))
+                except Exception:      # noqa - fall back to the dense prefix only
+                    pass
+                info['sparse'] = sparse
+                info['fill'] = fill
+            arrs[name] = info
         return dict(scalars=vals, arrays=arrs)
 
 
